@@ -5,7 +5,7 @@
 use super::c16_ref_real as ref_real;
 use crate::harness::{hash_str, H};
 use crate::json::J;
-use crate::rng::Rng;
+use crate::rng::{mix, Rng};
 use crate::util::*;
 use geodesy::authoring::*;
 use std::io::Write;
@@ -254,6 +254,9 @@ pub fn run(h: &H) {
             9 => {
                 h.guard(idx, "kp: error paths and empty input", || errors(h, idx, &kp, &scratch, &mut rng));
             }
+            8 if (idx / 10) % 4 == 3 => {
+                h.guard(idx, "kp: estimated output format across a batch boundary", || batch_format(h, idx, &kp, &scratch, &mut rng));
+            }
             8 => {
                 h.guard(idx, "kp: batch boundaries", || batches(h, idx, &kp, &scratch, &mut rng));
             }
@@ -438,6 +441,84 @@ fn batches(h: &H, idx: u64, kp: &std::path::Path, scratch: &std::path::Path, rng
         return;
     }
     check_output(h, idx, &format!("batch-{nlines}"), &a, &r.stdout, &want, 4, 3);
+}
+
+/// Without -D and -d kp estimates the output dimension and the number of decimals from the input.
+/// Whatever the estimate is, the format of an output line must not depend on which internal batch
+/// of 25000 tuples the line falls into: all lines of one run are printed alike
+fn batch_format(h: &H, idx: u64, kp: &std::path::Path, scratch: &std::path::Path, rng: &mut Rng) {
+    let extra = 1 + rng.below(3);
+    h.distinct(mix(idx, extra as u64));
+    // (a) the widest line comes after the first batch; no -D
+    {
+        let mut text = String::with_capacity(26_000 * 8);
+        for _ in 0..25_000 {
+            text += "55 12\n";
+        }
+        for _ in 0..extra {
+            text += "56 13 100\n";
+        }
+        let f = scratch.join(format!("dim_{idx}.txt"));
+        std::fs::write(&f, &text).ok();
+        let args = vec!["addone".to_string(), "-d".into(), "2".into(), f.to_string_lossy().to_string()];
+        let r = run_kp(kp, &args, None);
+        let _ = std::fs::remove_file(&f);
+        h.eval(1);
+        h.class("batch-format/estimated-dimension");
+        if r.status != Some(0) {
+            v(h, idx, "kp-failed-on-valid-input/batch-format", J::obj().set("kp_arguments", args).set("status", format!("{:?}", r.status)));
+            return;
+        }
+        let widths: std::collections::BTreeSet<usize> = r.stdout.lines().map(|l| l.split_whitespace().count()).collect();
+        if widths.len() != 1 {
+            v(
+                h,
+                idx,
+                "batch-boundary/estimated-dimension-differs-between-batches",
+                J::obj()
+                    .set("what", "without -D, lines of the first batch of 25000 and lines of the next batch are printed with different numbers of columns")
+                    .set("input", format!("25000 lines '55 12' followed by {extra} line(s) '56 13 100'"))
+                    .set("columns_seen", J::Arr(widths.iter().map(|w| J::Int(*w as i64)).collect())),
+            );
+        }
+    }
+    // (b) the first value of the first batch is above 1000, the first value of the second below; no -d
+    {
+        let mut text = String::with_capacity(26_000 * 10);
+        for _ in 0..25_000 {
+            text += "5500 12\n";
+        }
+        for _ in 0..extra {
+            text += "56 13\n";
+        }
+        let f = scratch.join(format!("dec_{idx}.txt"));
+        std::fs::write(&f, &text).ok();
+        let args = vec!["noop".to_string(), "-D".into(), "2".into(), f.to_string_lossy().to_string()];
+        let r = run_kp(kp, &args, None);
+        let _ = std::fs::remove_file(&f);
+        h.eval(1);
+        h.class("batch-format/default-decimals");
+        if r.status != Some(0) {
+            v(h, idx, "kp-failed-on-valid-input/batch-format", J::obj().set("kp_arguments", args).set("status", format!("{:?}", r.status)));
+            return;
+        }
+        let decs: std::collections::BTreeSet<usize> = r
+            .stdout
+            .lines()
+            .filter_map(|l| l.split_whitespace().next().map(|t| t.split_once('.').map(|p| p.1.len()).unwrap_or(0)))
+            .collect();
+        if decs.len() != 1 {
+            v(
+                h,
+                idx,
+                "batch-boundary/default-decimals-differ-between-batches",
+                J::obj()
+                    .set("what", "without -d, lines of the first batch of 25000 and lines of the next batch are printed with different numbers of decimals")
+                    .set("input", format!("25000 lines '5500 12' followed by {extra} line(s) '56 13'"))
+                    .set("decimals_seen", J::Arr(decs.iter().map(|w| J::Int(*w as i64)).collect())),
+            );
+        }
+    }
 }
 
 fn errors(h: &H, idx: u64, kp: &std::path::Path, scratch: &std::path::Path, rng: &mut Rng) {
